@@ -491,6 +491,22 @@ func (env *SpecEnv) evalDollar(name string) (TV, error) {
 		}
 		return TV{Ge(ex.load(env.state(), LocLocal{l.rangeIdx}), n), types.Typ[types.Bool]}, nil
 	}
+	// $pK: the K-th parameter of the function under contract by position (a method's receiver is $p0), whatever it is named
+	if env.calleeFn == nil && len(name) >= 2 && name[0] == 'p' {
+		if k, err := strconv.Atoi(name[1:]); err == nil {
+			if k < 0 || k >= len(ex.fn.Params) {
+				return TV{}, fmt.Errorf("$%s: the function has %d parameters", name, len(ex.fn.Params))
+			}
+			pr := ex.fn.Params[k]
+			if v, ok := ex.regs[pr]; ok {
+				return TV{v, pr.Type()}, nil
+			}
+			if tv, ok := ex.params[pr.Name()]; ok {
+				return tv, nil
+			}
+			return TV{}, fmt.Errorf("$%s: parameter value not available", name)
+		}
+	}
 	if env.calleeFn == nil && (name == "selected" || name == "recvok") {
 		if name == "selected" {
 			return TV{ex.ghostGet(env.state(), "sel:idx"), types.Typ[types.Int]}, nil
